@@ -39,7 +39,7 @@ def register(R, P):
     # that called it; endpoints are nodes of the graph
     R.macro("GWF", ["g"], "all(implies(has_edge(g, a, b), has_node(g, a) and has_node(g, b) and is_item(b)) for a in every('node') for b in every('node'))")
     # reference graph: edges lead from a reference to an element that read it, endpoints are nodes of the graph
-    R.macro("RGWF", ["g"], "all(implies(has_edge(g, a, b), has_node(g, a) and has_node(g, b) and not is_nd(a) and is_nd(b)) for a in every('rnode') for b in every('rnode'))")
+    R.macro("RGWF", ["g"], "all(implies(has_edge(g, a, b), has_node(g, a) and has_node(g, b) and not is_nd(a) and is_nd(b) and is_item(nd_of(b))) for a in every('rnode') for b in every('rnode'))")
     def _setting_funs(E, st):
         A = st.H("f:allow_none", Val); Pa = st.H("f:parent", Ref)
         F = z3.Function("setting_of", A.sort(), Pa.sort(), Ref, Val)
@@ -306,7 +306,10 @@ def register5(R, P):
         static={"remove_extra": False},
         note="keys are modelled already tuplised (sort Key); the non-tuple branch is covered by the bounded driver of C01",
         trusted=True, pure=True, ensures=["result == key"])
-    P["_model"]["cells"] += ["key_to_node"]
+    R.contract("modelx/core/node.py::node_has_key",
+        params={"node": "node"}, returns="bool",
+        ensures=["result == is_item(node)"], modifies=[])
+    P["_model"]["cells"] += ["key_to_node", "node_has_key"]
 
 
 def register6(R, P):
@@ -419,4 +422,80 @@ def register6(R, P):
         ], "modifies": ["content(self.model.tracegraph)", "content(self.model.refgraph)", "every_content('dict[key,val]')", "every_content('set[key]')"]}},
         modifies=["content(self.model.tracegraph)", "content(self.model.refgraph)", "every_content('dict[key,val]')", "every_content('set[key]')"],
         alloc=True)
+    # dynamic dispatch on node[OBJ] (interface NodeObj): resolved to the CellsImpl contracts — stated assumption; the
+    # ItemSpaceParent overrides (on_clear_trace deletes the ItemSpace, get_value_from_key evaluates it) are exercised by the
+    # bounded drivers only
+    R.contracts["NodeObj.on_clear_trace"] = R.contracts["CellsImpl.on_clear_trace"]
+    R.contracts["NodeObj.get_value_from_key"] = R.contracts["CellsImpl.get_value_from_key"]
     P["_model"]["cells"] += ["CellsImpl.get_value_from_key", "CellsImpl.set_value_from_key", "CellsImpl.clear_all_values"]
+
+
+def register7(R, P):
+    PRE = ["GWF(self.tracegraph)", "RGWF(self.refgraph)", "HELD(self.tracegraph)", "SEP()",
+           "all(c.data is not d.input_keys for c in every('CellsImpl') for d in every('CellsImpl'))"]
+    MOD = ["content(self.tracegraph)", "content(self.refgraph)", "every_content('dict[key,val]')", "every_content('set[key]')"]
+    GONE_INV = [
+        "all(implies(is_item(n), (key(n) in obj(n).data) == (old(key(n) in obj(n).data) and n not in _done)) for n in every('node'))",
+        "all(implies(is_item(n) and key(n) in obj(n).data, obj(n).data[key(n)] == old(obj(n).data[key(n)])) for n in every('node'))",
+        "all(implies(is_item(n), (key(n) in obj(n).input_keys) == (old(key(n) in obj(n).input_keys) and n not in _done)) for n in every('node'))",
+    ]
+    R.contract(M + "::TraceManager.clear_obj",
+        params={"self": "ModelImpl", "obj": "NodeObj"},
+        requires=PRE,
+        ensures=[
+            # C02/C09/C13: no element of obj (nor its object node) remains in the graph ...
+            "NO-OBJ:: all(not (has_node(self.tracegraph, n) and obj(n) is obj) for n in every('node'))",
+            # ... every value still held was held before, unchanged, and is not computed from a removed element
+            "KEPT:: all(implies(is_item(n) and key(n) in obj(n).data, old(key(n) in obj(n).data) and obj(n).data[key(n)] == old(obj(n).data[key(n)])) for n in every('node'))",
+            "REMOVED-LOSE-DATA:: all(implies(is_item(n) and old(has_node(self.tracegraph, n)) and not has_node(self.tracegraph, n), key(n) not in obj(n).data) for n in every('node'))",
+            "CLOSED:: all(implies(old(has_edge(self.tracegraph, a, b)) and not has_node(self.tracegraph, a) and old(has_node(self.tracegraph, a)), not has_node(self.tracegraph, b)) for a in every('node') for b in every('node'))",
+            "SHRINK:: all(implies(has_node(self.tracegraph, n), old(has_node(self.tracegraph, n))) for n in every('node'))",
+            "UNTOUCHED:: all(implies(is_item(n) and has_node(self.tracegraph, n) == old(has_node(self.tracegraph, n)), (key(n) in obj(n).data) == old(key(n) in obj(n).data)) for n in every('node'))",
+            "HELD:: HELD(self.tracegraph)", "GWF:: GWF(self.tracegraph)", "RGWF:: RGWF(self.refgraph)",
+        ],
+        loops={0: {"inv": GONE_INV, "modifies": ["every_content('dict[key,val]')", "every_content('set[key]')"]}},
+        modifies=MOD, alloc=True)
+    P["_model"]["graph"] += ["TraceManager.clear_obj"]
+
+
+def register8(R, P):
+    G = "self.tracegraph"
+    PRE = ["GWF(self.tracegraph)", "RGWF(self.refgraph)", "HELD(self.tracegraph)", "SEP()",
+           "all(c.data is not d.input_keys for c in every('CellsImpl') for d in every('CellsImpl'))",
+           "self.tracegraph is not self.refgraph"]
+    MOD = ["content(self.tracegraph)", "content(self.refgraph)", "every_content('dict[key,val]')", "every_content('set[key]')"]
+    # a datum is present iff it was, and its element is still a node (or never was one), or is in the batch being cleared
+    def present(batch):
+        return ("all(implies(is_item(n), (key(n) in obj(n).%s) == (old(key(n) in obj(n).%s) and (has_node(self.tracegraph, n) or not old(has_node(self.tracegraph, n))" + batch + ")))"
+                " for n in every('node'))")
+    COMMON = [
+        "all(implies(is_item(n) and key(n) in obj(n).data, obj(n).data[key(n)] == old(obj(n).data[key(n)])) for n in every('node'))",
+        "all(implies(has_node(self.tracegraph, n), old(has_node(self.tracegraph, n))) for n in every('node'))",
+        "all(has_edge(self.tracegraph, a, b) == (old(has_edge(self.tracegraph, a, b)) and has_node(self.tracegraph, a) and has_node(self.tracegraph, b)) for a in every('node') for b in every('node'))",
+        # the removed part is closed under the old successor relation
+        "all(implies(old(has_edge(self.tracegraph, a, b)) and old(has_node(self.tracegraph, a)) and not has_node(self.tracegraph, a), not has_node(self.tracegraph, b)) for a in every('node') for b in every('node'))",
+    ]
+    R.contract(M + "::TraceManager.clear_attr_referrers",
+        params={"self": "ModelImpl", "ref": "ReferenceImpl"},
+        requires=PRE,
+        ensures=[
+            # C02 (attribute-path row): every element that read `ref` by attribute path, and everything computed from
+            # it, is out of the graph and holds no value
+            "REFERRERS-GONE:: all(implies(old(has_edge(self.refgraph, rf(ref), nd(n))), not has_node(self.tracegraph, n)) for n in every('node'))",
+            "DATA:: " + present("") % ("data", "data"),
+            "INPUT-FLAGS:: " + present("") % ("input_keys", "input_keys"),
+            "KEPT:: " + COMMON[0], "SHRINK:: " + COMMON[1], "EDGES:: " + COMMON[2], "CLOSED:: " + COMMON[3],
+            "HELD:: HELD(self.tracegraph)", "GWF:: GWF(self.tracegraph)",
+        ],
+        loops={
+            0: {"inv": [present("") % ("data", "data"), present("") % ("input_keys", "input_keys")] + COMMON + [
+                    "all(implies(x in _done and is_nd(x), not has_node(self.tracegraph, nd_of(x))) for x in every('rnode'))",
+                    "GWF(self.tracegraph)",
+                ], "modifies": ["content(self.tracegraph)", "every_content('dict[key,val]')", "every_content('set[key]')"]},
+            1: {"inv": [present(" or (n in descs and n not in _done)") % ("data", "data"),
+                        present(" or (n in descs and n not in _done)") % ("input_keys", "input_keys")] + COMMON[:1] + [
+                    "all(implies(n in descs, is_item(n) and old(has_node(self.tracegraph, n)) and not has_node(self.tracegraph, n)) for n in every('node'))",
+                ], "modifies": ["every_content('dict[key,val]')", "every_content('set[key]')"]},
+        },
+        modifies=MOD, alloc=True)
+    P["_model"]["graph"] += ["TraceManager.clear_attr_referrers"]
